@@ -89,9 +89,12 @@ package engine
 
 // slice: how the grouping continuation (and =../2) reads a list: every element, in list order, dereferenced
 //@ func slice
-//@   property C11
+//@   property C11 C16
+//@   modifies nothing
 //@   nosafety
-//@   loop 1 invariant true
+//@   loop 1 invariant[what-is-collected-lives-in-memory-of-its-own] cap(ret) == 0 || fresh(ret)
+//@   loop 1 invariant[until-the-iterator-has-run-it-is-as-it-was-set-up] !called(cur) ==> !iter.AllowPartial && !iter.AllowCycle
+//@   at-call (*ListIterator).Next requires[neither-a-partial-list-nor-a-cyclic-one-is-accepted] !called(cur) ==> !a0.AllowPartial && !a0.AllowCycle
 //@   bind more = (*ListIterator).Next#1
 //@   bind cur = (*ListIterator).Current#1
 //@   bind ierr = (*ListIterator).Err#1
